@@ -345,15 +345,31 @@ func (c *Ctx) isRecoveringProducer(pkg *packages.Package, e ast.Expr) bool {
 	}
 	// every call of a producer inside the literal happens in a body that starts with a recovering defer
 	nProd, allGuarded := 0, true
+	countIn := func(root ast.Node) {
+		ast.Inspect(root, func(n ast.Node) bool {
+			cc, ok := n.(*ast.CallExpr)
+			if !ok || !isProducerType(p.TypesInfo.TypeOf(cc.Fun)) {
+				return true
+			}
+			nProd++
+			body := c.enclosingBody(cc)
+			if body == nil || !c.startsWithRecoveringDefer(p, body) {
+				allGuarded = false
+			}
+			return true
+		})
+	}
+	countIn(lit.Body)
+	// the producer may be run by a function of the package that the literal calls (produceRecovered(yield))
 	ast.Inspect(lit.Body, func(n ast.Node) bool {
 		cc, ok := n.(*ast.CallExpr)
-		if !ok || !isProducerType(p.TypesInfo.TypeOf(cc.Fun)) {
+		if !ok {
 			return true
 		}
-		nProd++
-		body := c.enclosingBody(cc)
-		if body == nil || !c.startsWithRecoveringDefer(p, body) {
-			allGuarded = false
+		if hc := Callee(p.TypesInfo, cc); hc != nil && hc.Pkg() == p.Types {
+			if hd := findFuncDecl(p, hc); hd != nil && hd.Body != nil && hd != fd {
+				countIn(hd.Body)
+			}
 		}
 		return true
 	})
@@ -477,7 +493,7 @@ func (c *Ctx) producerUsesGuarded(pkg *packages.Package, fn ast.Node, obj types.
 		okGuard := false
 		inspectNoLit(gfd.Body, func(x ast.Node) bool {
 			if r, isRet := x.(*ast.ReturnStmt); isRet && len(r.Results) == 2 {
-				if m, isLit := ast.Unparen(r.Results[0]).(*ast.FuncLit); isLit && c.startsWithRecoveringDefer(gp, m.Body) {
+				if body := c.funcValueBody(gp, gfd, r.Results[0]); body != nil && c.startsWithRecoveringDefer(gp, body) {
 					okGuard = true
 				}
 			}
@@ -821,4 +837,34 @@ func (c *Ctx) factoryProducts(pkg *packages.Package, fac ast.Expr) (res []factor
 		unknown = "the worker factory has no return"
 	}
 	return
+}
+
+// funcValueBody resolves an expression that denotes a function to the body
+// that runs when it is called: a literal, a local with one definition that is
+// a literal (named results assigned before a plain return), or a method value
+// g.consume of a type of the package.
+func (c *Ctx) funcValueBody(pkg *packages.Package, fn ast.Node, e ast.Expr) *ast.BlockStmt {
+	info := pkg.TypesInfo
+	switch t := ast.Unparen(e).(type) {
+	case *ast.FuncLit:
+		return t.Body
+	case *ast.Ident:
+		if v, ok := info.ObjectOf(t).(*types.Var); ok {
+			// assigned exactly once (also a named result that is set before a plain return)
+			if rhs, has := singleDefExpr[v]; has {
+				if lit, ok := ast.Unparen(rhs).(*ast.FuncLit); ok {
+					return lit.Body
+				}
+			}
+		}
+	case *ast.SelectorExpr:
+		if sel, ok := info.Selections[t]; ok && sel.Kind() == types.MethodVal {
+			if m, ok := sel.Obj().(*types.Func); ok && m.Pkg() == pkg.Types {
+				if fd := findFuncDecl(pkg, m); fd != nil {
+					return fd.Body
+				}
+			}
+		}
+	}
+	return nil
 }
